@@ -1,5 +1,6 @@
 import TinsModel.Wire.Chain.StepIcmp
 import TinsModel.Wire.Chain.StepTransport
+import TinsModel.Wire.Chain.StepWifi
 /-
   Whole-packet C03 over all covered families, part 4: **the one-layer step for every covered class** over the interface the
   registry uses (`AnyObj.write`, `parseOne`): layer `x` (representable above the stack `os`: `LayerOK`) is written around the
@@ -22,11 +23,14 @@ theorem l2_link_bad (x : L2.Obj) : ¬ L2.Link x .bad := by
   cases x <;> simp [L2.Link, L2.etherLink]
 
 theorem linkAll_l2_cases (x : L2.Obj) (os : List AnyObj) (h : LinkAll (.l2 x) os) :
-    (∃ y r, os = y :: r ∧ NetTier y ∧ l2ToNetP x y) ∨ L2.Link x (L2.next os) := by
+    (∃ y r, os = y :: r ∧ NetTier y ∧ l2ToNetP x y) ∨
+    (∃ y r n, os = y :: r ∧ ExtTier y n ∧ l2Ether x) ∨
+    (∃ s r, os = .app (.stp s) :: r ∧ l2ToStp x) ∨
+    L2.Link x (L2.next os) := by
   cases hnx : nextA os with
-  | none => right; simpa only [LinkAll, hnx] using h
-  | raw p => right; simpa only [LinkAll, hnx] using h
-  | bad => right; simpa only [LinkAll, hnx] using h
+  | none => right; right; right; simpa only [LinkAll, hnx] using h
+  | raw p => right; right; right; simpa only [LinkAll, hnx] using h
+  | bad => right; right; right; simpa only [LinkAll, hnx] using h
   | obj y r =>
     have hos := (nextA_obj hnx).1
     cases y with
@@ -36,20 +40,41 @@ theorem linkAll_l2_cases (x : L2.Obj) (os : List AnyObj) (h : LinkAll (.l2 x) os
         left
         have h2 : l2ToNet x 4 i.version := by simpa only [LinkAll, hnx] using h
         exact ⟨_, r, hos, trivial, h2⟩
-      | ah a => right; simpa only [LinkAll, hnx] using h
-      | esp e => right; simpa only [LinkAll, hnx] using h
+      | ah a => right; right; right; simpa only [LinkAll, hnx] using h
+      | esp e => right; right; right; simpa only [LinkAll, hnx] using h
     | ip6 o =>
       cases o with
       | ip6 p =>
         left
         have h2 : l2ToNet x 6 p.version := by simpa only [LinkAll, hnx] using h
         exact ⟨_, r, hos, trivial, h2⟩
-    | raw p => right; simpa only [LinkAll, hnx] using h
-    | l2 z => right; simpa only [LinkAll, hnx] using h
-    | icmp z => right; simpa only [LinkAll, hnx] using h
-    | tr z => right; simpa only [LinkAll, hnx] using h
-    | app z => right; simpa only [LinkAll, hnx] using h
-    | wifi z => right; simpa only [LinkAll, hnx] using h
+    | raw p => right; right; right; simpa only [LinkAll, hnx] using h
+    | l2 z => right; right; right; simpa only [LinkAll, hnx] using h
+    | icmp z => right; right; right; simpa only [LinkAll, hnx] using h
+    | tr z => right; right; right; simpa only [LinkAll, hnx] using h
+    | app z =>
+      cases z with
+      | arp a =>
+        right; left
+        have h2 : l2Ether x := by simpa only [LinkAll, hnx] using h
+        exact ⟨_, r, "ARP", hos, rfl, h2⟩
+      | stp s =>
+        right; right; left
+        have h2 : l2ToStp x := by simpa only [LinkAll, hnx] using h
+        exact ⟨s, r, hos, h2⟩
+      | vxlan v => right; right; right; simpa only [LinkAll, hnx] using h
+      | rtp v => right; right; right; simpa only [LinkAll, hnx] using h
+      | bootp v => right; right; right; simpa only [LinkAll, hnx] using h
+      | dhcp v => right; right; right; simpa only [LinkAll, hnx] using h
+      | dhcpv6 v => right; right; right; simpa only [LinkAll, hnx] using h
+    | wifi z =>
+      cases z with
+      | eapol e =>
+        right; left
+        have h2 : l2Ether x ∧ EapolTyped e := by simpa only [LinkAll, hnx] using h
+        exact ⟨_, r, "EAPOL", hos, ⟨rfl, h2.2⟩, h2.1⟩
+      | dot11 d => right; right; right; simpa only [LinkAll, hnx] using h
+      | radiotap t => right; right; right; simpa only [LinkAll, hnx] using h
 
 theorem take_drop_fullA (region : Bytes) (h n : Nat) (hl : region.length = h + n) : (region.drop h).take n = region.drop h :=
   List.take_of_length_le (by simp only [List.length_drop]; omega)
@@ -133,14 +158,77 @@ theorem step_all (ps : List LayerInfo) (x : AnyObj) (os : List AnyObj) (hok : La
   have hk0 : ¬ PadOK x → k = 0 := fun hn => by rcases hk with h | h; exact h; exact absurd h.2 hn
   cases x with
   | raw p => exact hside.elim
-  | app o => exact hside.elim
-  | wifi o => exact hside.elim
+  | app o =>
+    cases o with
+    | arp a =>
+      have hlen' : region.length = 28 + sizeOfStack os := hlen
+      have hio' : region.drop 28 = io := by rw [← hio]; exact (take_drop_fullA region 28 _ hlen').symm
+      rcases arp_step ps a os hinv hlink k region io hlen' hio' hnil hraw with ⟨out, x', inner, hw, hol, hp, hv, hs⟩
+      exact ⟨out, x', inner, hw, hol, hp, hv, by simpa [AnyObj.trl, App.trl] using hs, trivial⟩
+    | stp t =>
+      have hlen' : region.length = 35 + sizeOfStack os := hlen
+      rcases stp_step ps t os hinv hlink k region io hlen' with ⟨out, x', inner, hw, hol, hp, hv, hs⟩
+      exact ⟨out, x', inner, hw, hol, hp, hv, by simpa [AnyObj.trl, App.trl] using hs, trivial⟩
+    | vxlan v =>
+      have := hk0 (fun h => h); subst this
+      have hlen' : region.length = 8 + sizeOfStack os := hlen
+      have hio' : region.drop 8 = io := by rw [← hio]; exact (take_drop_fullA region 8 _ hlen').symm
+      rcases vxlan_step ps v os hinv hlink region io hlen' hio' hnil hpos with ⟨out, x', inner, hw, hol, hp, hv, hs⟩
+      exact ⟨out, x', inner, hw, hol, by rw [append_replicate_zero]; exact hp, hv, hs, trivial⟩
+    | rtp t =>
+      have := hk0 (fun h => h); subst this
+      rcases rtp_step ps t os hinv hside hlink region io hlen hio hnil hraw with ⟨out, x', inner, hw, hol, hp, hv, hs⟩
+      exact ⟨out, x', inner, hw, hol, by rw [append_replicate_zero]; exact hp, hv, hs, trivial⟩
+    | bootp p =>
+      have := hk0 (fun h => h); subst this
+      have hlen' : region.length = p.hdr + sizeOfStack os := hlen
+      rcases bootp_step ps p os hinv hside hlink region io hlen' with ⟨out, x', inner, hw, hol, hp, hv, hs⟩
+      exact ⟨out, x', inner, hw, hol, by rw [append_replicate_zero]; exact hp, hv, hs, trivial⟩
+    | dhcp d =>
+      have := hk0 (fun h => h); subst this
+      have hlen' : region.length = d.hdr + sizeOfStack os := hlen
+      rcases dhcp_step ps d os hinv hser hside hlink region io hlen' with ⟨out, x', inner, hw, hol, hp, hv, hs⟩
+      exact ⟨out, x', inner, hw, hol, by rw [append_replicate_zero]; exact hp, hv, hs, trivial⟩
+    | dhcpv6 d =>
+      have := hk0 (fun h => h); subst this
+      have hlen' : region.length = d.hdr + sizeOfStack os := hlen
+      rcases dhcpv6_step ps d os hinv hser hside hlink region io hlen' with ⟨out, x', inner, hw, hol, hp, hv, hs⟩
+      exact ⟨out, x', inner, hw, hol, by rw [append_replicate_zero]; exact hp, hv, hs, trivial⟩
+  | wifi o =>
+    have := hk0 (fun h => h); subst this
+    cases o with
+    | dot11 d =>
+      have hlen' : region.length = d.hdrSize + sizeOfStack os := hlen
+      have hio' : region.drop d.hdrSize = io := by rw [← hio]; exact (take_drop_fullA region d.hdrSize _ hlen').symm
+      rcases dot11_step ps d os hinv hser hside hlink region io hlen' hio' hnil hraw hpos with
+        ⟨out, x', inner, hw, hol, hp, hv, hs⟩
+      exact ⟨out, x', inner, hw, hol, by rw [append_replicate_zero]; exact hp, hv, hs, trivial⟩
+    | eapol e =>
+      have hlen' : region.length = e.hdrSize + sizeOfStack os := hlen
+      have hio' : region.drop e.hdrSize = io := by rw [← hio]; exact (take_drop_fullA region e.hdrSize _ hlen').symm
+      rcases eapol_step ps e os hinv hside hlink region io hlen' hio' hnil hraw with ⟨out, x', inner, hw, hol, hp, hv, hs⟩
+      exact ⟨out, x', inner, hw, hol, by rw [append_replicate_zero]; exact hp, hv, hs, trivial⟩
+    | radiotap t =>
+      rcases radiotap_step ps t os hinv hside hlink region io hlen hio hiol with ⟨out, x', inner, hw, hol, hp, hv, hs⟩
+      exact ⟨out, x', inner, hw, hol, by rw [append_replicate_zero]; exact hp, hv, hs, trivial⟩
   | l2 x =>
-    rcases linkAll_l2_cases x os hlink with ⟨y, r, rfl, hy, hl⟩ | hl
+    rcases linkAll_l2_cases x os hlink with ⟨y, r, rfl, hy, hl⟩ | ⟨y, r, n, rfl, hy, hl⟩ | ⟨s, r, rfl, hl⟩ | hl
     · have hnx := nextA_cons_of_not_raw y r (netTier_not_raw hy)
       rcases l2_step_net ps x y r hinv hy hl k hk region io hlen hio (hpos y r hnx) (hnib y r hnx) with
         ⟨out, x', inner, hw, hol, hp, hv, hs⟩
       exact ⟨out, x', inner, hw, hol, hp, hv, hs, trivial⟩
+    · have hnx := nextA_cons_of_not_raw y r (extTier_not_raw hy)
+      rcases l2_step_ext ps x y r n hinv hy hl k hk region io hlen hio (hpos y r hnx) with
+        ⟨out, x', inner, hw, hol, hp, hv, hs⟩
+      exact ⟨out, x', inner, hw, hol, hp, hv, hs, trivial⟩
+    · cases x with
+      | llc l =>
+        have := hk0 (fun h => h); subst this
+        have hlen' : region.length = l.hdr + sizeOfStack (.app (.stp s) :: r) := hlen
+        have hio' : region.drop l.hdr = io := by rw [← hio]; exact (take_drop_fullA region l.hdr _ hlen').symm
+        rcases llc_step_stp ps l s r hinv hl region io hlen' hio' (hpos _ r rfl) with ⟨out, x', inner, hw, hol, hp, hv, hs⟩
+        exact ⟨out, x', inner, hw, hol, by rw [append_replicate_zero]; exact hp, hv, hs, trivial⟩
+      | _ => exact hl.elim
     · rcases l2_step_l2 ps x os hinv hl k hk region io hlen hio hiol hnil hraw hpos with ⟨out, x', inner, hw, hol, hp, hv, hs⟩
       exact ⟨out, x', inner, hw, hol, hp, hv, hs, trivial⟩
   | ip o =>
@@ -211,5 +299,79 @@ theorem step_all (ps : List LayerInfo) (x : AnyObj) (os : List AnyObj) (hok : La
         show p.trl (sizeOfStack os) + 0 = 0
         omega
       rw [this]; exact hs
+
+/-! ### the step under any entry name -/
+
+/-- under its own class name an object tolerates padding only if its class does (`PadOK`): the EAPOL classes do not — their
+    constructors hand every trailing byte to RawPDU; only `EAPOL::from_bytes` cuts at the length field -/
+theorem padCond_of_self {ps : List LayerInfo} {x : AnyObj} {k : Nat} (h : PadCondN ps x.info.1 x k) : PadCond ps x k := by
+  rcases h with h | ⟨hps, h | ⟨he, hn⟩⟩
+  · exact .inl h
+  · exact .inr ⟨hps, h⟩
+  · exfalso
+    cases x with
+    | wifi o =>
+      cases o with
+      | eapol e =>
+        have hname : (AnyObj.wifi (.eapol e)).info.1 = if e.rsn then "RSNEAPOL" else "RC4EAPOL" := rfl
+        rw [hname] at hn
+        cases hr : e.rsn <;> simp [hr] at hn
+      | _ => cases he
+    | _ => cases he
+
+/-- **the one-layer step of whole-packet C03, every covered class, under every entry name**: the writer's output does not
+    depend on how the re-parse enters the class; under the class's own name this is `step_all`, under `Dot11*` / `EAPOL` /
+    `EAPOL*` the factory selects the same class from the bytes the writer produced. -/
+theorem step_all_named (ps : List LayerInfo) (x : AnyObj) (os : List AnyObj) (hok : LayerOK x os) (region io : Bytes)
+    (hlen : region.length = x.hdr + sizeOfStack os + x.trl (sizeOfStack os))
+    (hio : (region.drop x.hdr).take (sizeOfStack os) = io) (hiol : io.length = sizeOfStack os)
+    (hnil : os = [] → io = []) (hraw : ∀ p, os = [.raw p] → io = p)
+    (hpos : ∀ y r, nextA os = .obj y r → 0 < io.length) (hnib : ∀ y r, nextA os = .obj y r → FirstNib y io) :
+    ∃ out, x.write (cxOf ps os) region = .ok out ∧ out.length = region.length ∧ FirstNib x out ∧
+      ∀ n k, EntryName n x → PadCondN ps n x k →
+        ∃ x' inner, parseOne n (out ++ List.replicate k 0) = .ok (x', inner) ∧
+          layerView false x' = layerView false x ∧
+          StepInnerA x os io (x.trl (sizeOfStack os) + k) x' inner := by
+  rcases step_all ps x os hok 0 (.inl rfl) region io hlen hio hiol hnil hraw hpos hnib with
+    ⟨out, _, _, hw, hol, _, _, _, hfn⟩
+  refine ⟨out, hw, hol, hfn, ?_⟩
+  intro n k hn hk
+  have same : ∀ out', x.write (cxOf ps os) region = .ok out' → out' = out := by
+    intro out' h'
+    have := h'.symm.trans hw
+    injection this
+  rcases hn with rfl | hps
+  · rcases step_all ps x os hok k (padCond_of_self hk) region io hlen hio hiol hnil hraw hpos hnib with
+      ⟨out', x', inner, hw', _, hp, hv, hs, _⟩
+    rw [same out' hw'] at hp
+    exact ⟨x', inner, hp, hv, hs⟩
+  · obtain ⟨hinv, hser, hside, hlink⟩ := hok
+    cases x with
+    | wifi o =>
+      cases o with
+      | dot11 d =>
+        obtain ⟨rfl, hdisp⟩ : n = "Dot11*" ∧ Wifi.Dot11.dispatch (Wifi.byteAt d.hdr 0) = d.cls := hps
+        have hk0 : k = 0 := by
+          rcases hk with h | ⟨_, h | ⟨he, _⟩⟩
+          · exact h
+          · exact h.elim
+          · cases he
+        subst hk0
+        have hlen' : region.length = d.hdrSize + sizeOfStack os := hlen
+        have hio' : region.drop d.hdrSize = io := by rw [← hio]; exact (take_drop_fullA region d.hdrSize _ hlen').symm
+        rcases dot11_step_pseudo ps d os hinv hser hside hlink hdisp region io hlen' hio' hnil hraw hpos with
+          ⟨out', x', inner, hw', _, hp, hv, hs⟩
+        rw [same out' hw'] at hp
+        exact ⟨x', inner, by rw [append_replicate_zero]; exact hp, hv, hs⟩
+      | eapol e =>
+        obtain ⟨hname, htyped⟩ : (n = "EAPOL" ∨ n = "EAPOL*") ∧ EapolTyped e := hps
+        have hlen' : region.length = e.hdrSize + sizeOfStack os := hlen
+        have hio' : region.drop e.hdrSize = io := by rw [← hio]; exact (take_drop_fullA region e.hdrSize _ hlen').symm
+        rcases eapol_step_pseudo ps e os hinv hside hlink htyped n hname k region io hlen' hio' hnil hraw with
+          ⟨out', x', inner, hw', _, hp, hv, hs⟩
+        rw [same out' hw'] at hp
+        exact ⟨x', inner, hp, hv, by simpa [AnyObj.trl, Wifi.trl] using hs⟩
+      | radiotap t => exact hps.elim
+    | _ => exact hps.elim
 
 end Tins.Wire.ChainAll
